@@ -270,3 +270,61 @@ Proof.
       split; [rewrite H1; lia|]. split; [exact H2|]. split; [exact H3|]. split; [exact H4|]. split; [exact H5|].
       split; [intros p Hp; specialize (H6 p Hp); lia|]. left. split; assumption.
 Qed.
+
+(* ---------- straight lines and the box outline *)
+
+Lemma zrange_from_up : forall n a z, In z (zrange_from n a 1) <-> a <= z < a + Z.of_nat n.
+Proof.
+  induction n as [|n IH]; intros a z; [cbn; lia|].
+  cbn [zrange_from In]. rewrite IH. lia.
+Qed.
+
+Lemma zrange_from_down : forall n a z, In z (zrange_from n a (-1)) <-> a - Z.of_nat n < z <= a.
+Proof.
+  induction n as [|n IH]; intros a z; [cbn; lia|].
+  cbn [zrange_from In]. rewrite IH. lia.
+Qed.
+
+Lemma zrange_in : forall a b z, In z (zrange a b) <-> Z.min a b <= z <= Z.max a b.
+Proof.
+  intros a b z. unfold zrange. destruct (b >? a) eqn:E.
+  - rewrite zrange_from_up. lia.
+  - rewrite zrange_from_down. lia.
+Qed.
+
+Lemma zrange_length : forall a b, Z.of_nat (length (zrange a b)) = Z.abs (b - a) + 1.
+Proof.
+  intros a b. unfold zrange.
+  assert (H : forall n x s, length (zrange_from n x s) = n) by (induction n; intros; cbn; auto).
+  rewrite H. lia.
+Qed.
+
+Definition between (a b z : Z) : Prop := Z.min a b <= z <= Z.max a b.
+
+Lemma straight_in : forall x0 y0 x1 y1 x y,
+  In (x, y) (straight_pixels x0 y0 x1 y1) <->
+  if x0 =? x1 then x = x0 /\ between y0 y1 y else y = y0 /\ between x0 x1 x.
+Proof.
+  intros x0 y0 x1 y1 x y. unfold straight_pixels, between. destruct (x0 =? x1) eqn:E.
+  - rewrite in_map_iff. split.
+    + intros [p [Ep Hp]]. injection Ep as E1 E2. subst. apply zrange_in in Hp. lia.
+    + intros [Ex Hy]. exists y. split; [congruence | apply zrange_in; exact Hy].
+  - rewrite in_map_iff. split.
+    + intros [p [Ep Hp]]. injection Ep as E1 E2. subst. apply zrange_in in Hp. lia.
+    + intros [Ey Hx]. exists x. split; [congruence | apply zrange_in; exact Hx].
+Qed.
+
+(* the outline of the rectangle with corners (x0,y0), (x1,y1) *)
+Definition on_perimeter (x0 y0 x1 y1 x y : Z) : Prop :=
+  between x0 x1 x /\ between y0 y1 y /\ (x = x0 \/ x = x1 \/ y = y0 \/ y = y1).
+
+Theorem box_pixels_perimeter : forall x0 y0 x1 y1 x y,
+  In (x, y) (box_pixels x0 y0 x1 y1) <-> on_perimeter x0 y0 x1 y1 x y.
+Proof.
+  intros x0 y0 x1 y1 x y. unfold box_pixels, on_perimeter, between.
+  destruct (y0 <? y1) eqn:Ey; rewrite !in_app_iff, !straight_in;
+    rewrite !Z.eqb_refl; destruct (x1 =? x0) eqn:Ex; unfold between; lia.
+Qed.
+
+(* the cells of the filled rectangle *)
+Definition in_box (x0 y0 x1 y1 x y : Z) : Prop := between x0 x1 x /\ between y0 y1 y.
